@@ -68,7 +68,10 @@ WithdrawF(s, an, bn, amt, w) ==
   LET b0 == s.banks[bn] ac == s.accts[an] g == s.groups[b0.group] se == BankStateErr(b0, "Paused")
       px == Px(s.banks)[bn].px
   IN
-  IF Bit(ac.flags, ACC_DISABLED) THEN F2("AccountDisabled", s)
+  \* (account constraint of the instruction: inside receivership nothing leaves a bank whose initial asset weight is zero -
+  \* the end checks would not see it go)
+  IF Bit(ac.flags, ACC_RECEIVERSHIP) /\ BIsZero(b0.cfg.aw_init) THEN F2("LiquidationPremiumTooHigh", s)
+  ELSE IF Bit(ac.flags, ACC_DISABLED) THEN F2("AccountDisabled", s)
   ELSE IF se # "ok" THEN F2(se, s)
   ELSE IF px.load # "ok" THEN F2(px.load, s)
   ELSE IF IsErr(px.cRT) THEN F2(px.cRT.err, s)
